@@ -19,6 +19,7 @@ import CV.Proofs.StoreQueryTbl
 import CV.Proofs.StoreQueryFoot
 import CV.Proofs.BlockingQuery
 import CV.Proofs.StoreQueryCex
+import CV.Proofs.StoreQueryKv
 namespace CV.Store
 open CV
 
@@ -271,6 +272,115 @@ theorem kv_list_leading_nul_counterexample :
   refine ⟨?_, by rw [h.1, h.2.1]; omega⟩
   intro e; exact h.2.2 (by simpa using e)
 
+/-! ### KVSList / KVS.ListKeys: what holds (`_partial`) -/
+
+/-- every index stored anywhere in the KV part (index table, entries' ModifyIndex, tombstones) is at most `m` -/
+def KvInv (m : Nat) (s : State) : Prop := KvBound m s
+
+theorem kv_inv_step (s : State) (m i : Nat) (c : Cmd) (h : KvInv m s) (hi : m ≤ i) : KvInv i (apply s i c).1 :=
+  kvBound_step c h hi
+
+/-- `KvInv` holds in every state reachable by a well-indexed history. -/
+theorem kv_inv_reachable (s : State) (m : Nat) (log : Log) (h : KvInv m s) (hw : WellIndexed m log) :
+    KvInv (lastIndex m log) (replay s log) := by
+  induction log generalizing s m with
+  | nil => exact h
+  | cons ic rest ih =>
+    obtain ⟨i, c⟩ := ic
+    exact ih (apply s i c).1 i (kv_inv_step s m i c h (Nat.le_of_lt hw.1)) hw.2
+
+theorem kv_inv_empty : KvInv 0 State.empty :=
+  ⟨idxLe_nil 0, fun e he => by simp [State.empty] at he, fun t ht => by simp [State.empty] at ht⟩
+
+/-- the excluded shape of finding `kv:list:delete-tree-above-list-prefix`: every delete-tree verb of the
+    command (direct or inside a transaction) has a non-empty prefix that lies under the (NUL-trimmed) list
+    prefix, i.e. the single tombstone it leaves is one the list looks at -/
+def NoTreeAbove (p : Key) (c : Cmd) : Prop := ∀ d ∈ c.trees, d ≠ [] ∧ prefixMatch (trimNul p) d = true
+
+/-- PARTIAL (full statement above): for a list prefix that is not empty and has no leading NUL byte
+    (finding `kv:list:prefix-with-leading-NUL`) and a command with no delete-tree above the prefix, if the
+    listing changes then the new index is exactly the command's index, strictly above the old one. Every
+    command type: KV verbs, session invalidation releasing / deleting keys, transactions, … -/
+theorem kv_list_change_bumps_index_partial (p : Key) (hp : p ≠ []) (hnul : p.head? ≠ some 0)
+    (s : State) (m i : Nat) (c : Cmd) (hI : KvInv m s) (hi : m < i) (hT : NoTreeAbove p c)
+    (hch : ((Query.kvList p).run (apply s i c).1).2 ≠ ((Query.kvList p).run s).2) :
+    ((Query.kvList p).run (apply s i c).1).1 = i ∧ ((Query.kvList p).run s).1 < i := by
+  simp only [Query.run] at hch ⊢
+  have hold : (kvList s p).1 ≤ m := kvList_le hI
+  by_cases hc : ∀ u, c ≠ .reap u
+  · have L := list_apply (i := i) hnul c hc hT hI (Nat.le_of_lt hi)
+    rcases L.view with hv | hf
+    · exfalso; apply hch
+      rw [kvList_eq _ p hp, kvList_eq _ p hp]; simp [hv.1]
+    · exact ⟨kvList_fresh hp L.bound (by omega) hf, by omega⟩
+  · have : ∃ u, c = .reap u := by
+      cases c <;> simp at hc ⊢
+    obtain ⟨u, rfl⟩ := this
+    exfalso; apply hch
+    simp [apply, reapTxn, kvList]
+
+/-- … and the same for the key listing of `KVS.ListKeys` (any separator): it is computed from the listing. -/
+theorem kv_keys_change_bumps_index_partial (p sep : Key) (hp : p ≠ []) (hnul : p.head? ≠ some 0)
+    (s : State) (m i : Nat) (c : Cmd) (hI : KvInv m s) (hi : m < i) (hT : NoTreeAbove p c)
+    (hch : ((Query.kvKeys p sep).run (apply s i c).1).2 ≠ ((Query.kvKeys p sep).run s).2) :
+    ((Query.kvKeys p sep).run (apply s i c).1).1 = i ∧ ((Query.kvKeys p sep).run s).1 < i := by
+  have := kv_list_change_bumps_index_partial p hp hnul s m i c hI hi hT (by
+    simp only [Query.run] at hch ⊢
+    intro e; apply hch
+    simp at e; simp [e])
+  simpa [Query.run] using this
+
+/-- The listing of EVERYTHING (empty prefix) reports the table index: full contract, no exclusions. -/
+theorem kv_list_all_change_bumps_index (s : State) (m i : Nat) (c : Cmd) (hI : IdxInv m s) (hi : m < i)
+    (hch : ((Query.kvList []).run (apply s i c).1).2 ≠ ((Query.kvList []).run s).2) :
+    ((Query.kvList []).run (apply s i c).1).1 = i ∧ ((Query.kvList []).run s).1 < i := by
+  have T := tbl_apply s i c
+  have hle := Nat.le_of_lt hi
+  have hne : (apply s i c).1.kvs ≠ s.kvs := by
+    intro e; apply hch; simp [Query.run, kvList, e]
+  have h1 := tbl_val hI hle stable_kvs (T.kvs hne)
+  have h2 := (T.ops.le (hI.mono hle)).val "tombstones"
+  have h3 := hI.val "tombstones"
+  have h4 := hI.val "kvs"
+  have e : ∀ st : State, (kvList st []).1 = kvMaxIndex st := by
+    intro st; simp [kvList]
+  simp only [Query.run, e, kvMaxIndex]
+  omega
+
+/-- PARTIAL index monotonicity of KVSList: no decrease across any command that is not a tombstone reap
+    (and has no delete-tree above the prefix). -/
+theorem kv_list_index_monotone_partial (p : Key) (hp : p ≠ []) (hnul : p.head? ≠ some 0)
+    (s : State) (m i : Nat) (c : Cmd) (hI : KvInv m s) (hi : m ≤ i) (hc : ∀ u, c ≠ .reap u) (hT : NoTreeAbove p c) :
+    ((Query.kvList p).run s).1 ≤ ((Query.kvList p).run (apply s i c).1).1 := by
+  simp only [Query.run]
+  have hold : (kvList s p).1 ≤ m := kvList_le hI
+  have L := list_apply (i := i) hnul c hc hT hI hi
+  rcases L.view with hv | hf
+  · rw [kvList_eq _ p hp, kvList_eq _ p hp, hv.1, hv.2]
+    simp only
+    have T := tbl_apply s i c
+    have m1 := T.ops.mono (hI.idx.mono hi) stable_kvs
+    have m2 := T.ops.mono (hI.idx.mono hi) stable_tombstones
+    split
+    · exact Nat.le_refl _
+    · unfold kvMaxIndex; omega
+  · by_cases h0 : i = 0
+    · omega
+    · rw [kvList_fresh hp L.bound (by omega) hf]; omega
+
+/-- Tombstone reaping (the exception the property names) changes no listing at all; it can only lower the
+    index of a list query, by forgetting tombstones. -/
+theorem reap_changes_no_result (q : Query) (s : State) (i u : Nat) :
+    (q.run (apply s i (.reap u)).1).2 = (q.run s).2 := by
+  have hcsn : ∀ l, csnRows (reapTxn s u) l = csnRows s l := fun l =>
+    csnRows_congr (fun _ _ => rfl) (fun _ _ => ⟨rfl, rfl⟩)
+  cases q <;> simp [Query.run, apply, Store.kvGet, Store.kvList, kvFind, sessFind, sessOnNode, svcsNamed,
+    joinNode, nodeFind, nodeServicesHead, svcsOnNode, chksOnNode, chksOfService, chksInStatus, csnResult, pqFind, hcsn]
+  all_goals (try simp [reapTxn])
+  case kvGet k => by_cases hk : k = [] <;> simp [hk]
+  case servicesJoin => intro a _; rfl
+  case serviceNodes => intro a _ _; rfl
+
 /- Findings `catalog:check-rebound-to-another-service` and `catalog:check-row-keeps-old-service-name` need two
    services on one node; their witnesses (`reg n1 web + c2 on web; reg n1 db; reg n1 c2 on db` and
    `reg n1 web + c2 on web; reg n1 {id web, name db}; dereg check c2`) are replayed against the real store
@@ -311,5 +421,85 @@ theorem blocking_loop_sound {ρ : Type} (t : Trace ρ) (a start : Nat) (h : Cont
   split
   · next r hr => exact loop_returned _ _ _ h2 hr
   · next e he => exact loop_timeout h _ _ _ h1 h2 (by omega) he
+
+
+/-! ### end to end: a table-indexed query blocked across a history -/
+
+/-- the states a history passes through: `stateAt s0 log k` is the store after the first `k` entries -/
+def stateAt (s0 : State) (log : Log) (k : Nat) : State := replay s0 (log.take k)
+
+/-- what the blocking loop observes of query `q` along the history (any wake-up schedule) -/
+def queryTrace (q : Query) (s0 : State) (log : Log) (sched : Nat → Nat) : CV.BQ.Trace QRes where
+  last := log.length
+  idx k := reported (q.run (stateAt s0 log k)).1
+  res k := (q.run (stateAt s0 log k)).2
+  fired j k := q.fired (stateAt s0 log j) (stateAt s0 log k)
+  sched := sched
+
+theorem stateAt_succ (s0 : State) (log : Log) (k : Nat) (hk : k < log.length) :
+    stateAt s0 log (k + 1) = (apply (stateAt s0 log k) (log[k]).1 (log[k]).2).1 := by
+  unfold stateAt replay
+  rw [List.take_succ_eq_append_getElem hk, List.foldl_append]
+  rfl
+
+theorem wellIndexed_next (m : Nat) (log : Log) (hw : WellIndexed m log) (k : Nat) (hk : k < log.length) :
+    lastIndex m (log.take k) < (log[k]).1 ∧ m ≤ lastIndex m (log.take k) := by
+  induction log generalizing m k with
+  | nil => simp at hk
+  | cons ic rest ih =>
+    obtain ⟨i, c⟩ := ic
+    cases k with
+    | zero => simp [lastIndex]; exact hw.1
+    | succ k =>
+      have := ih i hw.2 k (by simpa using hk)
+      simp only [List.take_succ_cons, lastIndex, List.getElem_cons_succ]
+      exact ⟨this.1, Nat.le_trans (Nat.le_of_lt hw.1) this.2⟩
+
+theorem idx_inv_stateAt (s0 : State) (m : Nat) (log : Log) (h : IdxInv m s0) (hw : WellIndexed m log) (k : Nat) :
+    IdxInv (lastIndex m (log.take k)) (stateAt s0 log k) := by
+  have hw' : WellIndexed m (log.take k) := by
+    clear h
+    induction log generalizing m k with
+    | nil => simp [WellIndexed]
+    | cons ic rest ih =>
+      obtain ⟨i, c⟩ := ic
+      cases k with
+      | zero => simp [WellIndexed]
+      | succ k => exact ⟨hw.1, ih i hw.2 k⟩
+  exact idx_inv_reachable s0 m _ h hw'
+
+/-- THE PROPERTY, END TO END, for the table-indexed read paths. Take any store state satisfying the
+    index invariant (bound `m ≥ 1`), any well-indexed history of commands of any type, any table-indexed
+    query, any schedule of wake-ups. A client that was given the result of state `a` and blocks on its
+    index either gets an answer with a strictly larger index, or — if the request times out — NO state of
+    the history from `a` on had a different result: a change is never missed. -/
+theorem table_query_blocking_sound (q : Query) (hq : q.tableLevel = true) (s0 : State) (m : Nat) (hm : 1 ≤ m)
+    (log : Log) (hI : IdxInv m s0) (hw : WellIndexed m log) (sched : Nat → Nat) (a start : Nat)
+    (h1 : a ≤ start) (h2 : start ≤ log.length) :
+    let t := queryTrace q s0 log sched
+    match CV.BQ.run t (t.idx a) start with
+    | .returned r => t.idx a < t.idx r ∧ start ≤ r ∧ r ≤ log.length
+    | .timeout _ => ∀ k, a ≤ k → k ≤ log.length → t.res k = t.res a := by
+  intro t
+  have hplain : ∀ s, q.plainWatch s := by
+    intro s; cases q <;> simp [Query.tableLevel] at hq <;> simp [Query.plainWatch]
+  have hc : CV.BQ.Contract t a := by
+    refine ⟨?_, ?_, ?_⟩
+    · intro k _ hk
+      have hk' : k < log.length := hk
+      show reported _ ≤ reported _
+      rw [stateAt_succ s0 log k hk']
+      have hn := wellIndexed_next m log hw k hk'
+      exact reported_mono (table_index_monotone q hq _ _ _ _ (idx_inv_stateAt s0 m log hI hw k) (Nat.le_of_lt hn.1))
+    · intro k _ hk hch
+      have hk' : k < log.length := hk
+      show reported _ < reported _
+      have hn := wellIndexed_next m log hw k hk'
+      have hch' : (q.run (stateAt s0 log (k + 1))).2 ≠ (q.run (stateAt s0 log k)).2 := hch
+      rw [stateAt_succ s0 log k hk'] at hch' ⊢
+      exact table_change_bumps_reported_index q hq _ _ _ _ (idx_inv_stateAt s0 m log hI hw k) hn.1 (by omega) hch'
+    · intro j k _ _ _ hch
+      exact change_fires_watch q _ _ (hplain _) hch
+  exact blocking_loop_sound t a start hc h1 h2
 
 end CV.Store
